@@ -201,30 +201,35 @@ async fn handle_stream(
             stream.send(Frame::Ok).await?;
         }
 
-        let mut ts = topics.lock().await;
+        // Find the topic's channel, spawning the topic if it doesn't exist yet. The sender is
+        // cloned so that the lock on the shared topic map is released before anything is awaited
+        // on behalf of this topic: a topic that is slow to take new sockets must not be able to
+        // block registrations on every other topic.
+        let mut tx = {
+            let mut ts = topics.lock().await;
 
-        // Spawn new topic if it doesn't exist yet
-        if !ts.contains_key(topic) {
-            match frame {
-                Frame::RegisterPublisher(_) | Frame::RegisterSubscriber(_) => {
-                    let (fut, tx) = pubsub::Topic::pair();
-                    let handle = tokio::spawn(fut);
+            if !ts.contains_key(topic) {
+                match frame {
+                    Frame::RegisterPublisher(_) | Frame::RegisterSubscriber(_) => {
+                        let (fut, tx) = pubsub::Topic::pair();
+                        let handle = tokio::spawn(fut);
 
-                    topic_handles.lock().await.push(handle);
-                    ts.insert(topic.clone(), Sender::Pubsub(tx));
-                }
-                Frame::RegisterReplier(_) | Frame::RegisterRequestor(_) => {
-                    let (fut, tx) = reqrep::Topic::pair();
-                    let handle = tokio::spawn(fut);
+                        topic_handles.lock().await.push(handle);
+                        ts.insert(topic.clone(), Sender::Pubsub(tx));
+                    }
+                    Frame::RegisterReplier(_) | Frame::RegisterRequestor(_) => {
+                        let (fut, tx) = reqrep::Topic::pair();
+                        let handle = tokio::spawn(fut);
 
-                    topic_handles.lock().await.push(handle);
-                    ts.insert(topic.clone(), Sender::ReqRep(tx));
-                }
-                _ => unreachable!(), // because of `topic` instantiation
-            };
-        }
+                        topic_handles.lock().await.push(handle);
+                        ts.insert(topic.clone(), Sender::ReqRep(tx));
+                    }
+                    _ => unreachable!(), // because of `topic` instantiation
+                };
+            }
 
-        let tx = ts.get_mut(topic).unwrap();
+            ts.get(topic).unwrap().clone()
+        };
 
         match frame {
             Frame::RegisterPublisher(_) => {
